@@ -20,6 +20,9 @@ def leaf_harnesses():
                                 "wavlike_subchunk_parse", "exif_subchunk_parse", "wav_read_smpl_chunk", "wav_read_acid_chunk", "psf_binheader_readf", "header_read", "header_seek"],
                      bounds="chunk size any 32-bit value, file content nondeterministic, file length 0..%d" % flen))
     return out
+HARNESSES.append(H("gate", "C03/gate.c", link=["common"], stubs=["psf_log_printf", "psf_memset"], defines={"MF_CAP": 16, "SNP_MAX": 40, "PSF_MEMSET_MAX": 64}, unwind=4, checks="mem",
+                   include_env=("log_stub", "memfile", "memset_model", "snprintf_model"), timeout=120, functions=["validate_sfinfo", "validate_psf"],
+                   bounds="every SF_INFO field and data-geometry field symbolic (full width)"))
 HARNESSES += leaf_harnesses()
 # sequences of calls after a successful open: the L4 wrapper harnesses start from any I_open state (C05/C06/C17)
 HARNESSES += [h for h in _load("C05").HARNESSES if h.name.startswith("wrap.") and ".ch2" in h.name and "probe" not in h.name]
